@@ -83,6 +83,12 @@ def run(ctx):
             kinds.append("OTHER:%s under %s" % (v[:60], last[:80]))
     ctx.ob("R2", "parent-fails-for-exactly:missing-breadth,breadth<1,depth,child-error,join-error", sorted(kinds) == sorted(["breadth-word-missing", "breadth<1", "depth-reached", "child-error", "join-error", "ok"]),
            f.loc(0), "returns of compute: %s" % kinds, f)
+    # children read the parent's memory through the checked accessors, and the join grows the parent's memory through alloc,
+    # which must fail exactly above the limit (C08 R6)
+    from .. import access as A_
+    ctx.rule("R6", "children read parent memory through the checked Memory::load / load_range; the join's alloc succeeds exactly while the combined length is within the limit (C08 R6)")
+    A_.parent_memory_rules(ctx, "R6")
+    A_.alloc_rules(ctx, "R6")
     # R5
     pops = [(bb, t) for bb, t in f.calls() if M.callee_of(t).startswith("essential_vm::stack::Stack::") and M.render(M.peel(pv.of_operand(t["args"][0]))) == "inputs.stack"]
     ctx.ob("R5", "parent-stack-popped-once", [M.callee_of(t).split("::")[-1] for _, t in pops] == ["pop"], f.loc(0), "calls on the parent's stack: %s" % [M.callee_of(t).split("::")[-1] for _, t in pops], f)
